@@ -484,6 +484,10 @@ func (rl *Shell) transposeChars() {
 // line. If a numeric argument is given, the word to transpose
 // is chosen backward.
 func (rl *Shell) transposeWords() {
+	if rl.line.Len() == 0 {
+		return
+	}
+
 	rl.History.Save()
 
 	startPos := rl.cursor.Pos()
@@ -522,6 +526,12 @@ func (rl *Shell) transposeWords() {
 		wbpos, tbpos = tbpos, wbpos
 		wepos, tepos = tepos, wepos
 		transposeWith, toTranspose = toTranspose, transposeWith
+	}
+
+	// The two selections overlap: there are no two words to swap.
+	if wepos > tbpos {
+		rl.cursor.Set(startPos)
+		return
 	}
 
 	// Assemble the newline
